@@ -380,6 +380,9 @@ impl ReaderProp {
                 want_err
                     && Some(e.kind()) == s.cfg.fail_at.map(|f| f.1)
                     && e.to_string() == s.fail_msg()
+                    // the parked error is the source's error object, not a copy of its text
+                    && (s.cfg.fail_os.is_some()
+                        || crate::source::payload_of(e) == s.cfg.fail_at.map(|f| f.0))
             }
             None => !want_err,
         };
